@@ -34,13 +34,14 @@ def inplaceMethods : List String := [
   "unyt_array.convert_to_units", "unyt_array.convert_to_base", "unyt_array.convert_to_cgs",
   "unyt_array.convert_to_mks", "unyt_array.convert_to_equivalent", "unyt_array.__setitem__"]
 
-/-- copying methods that nevertheless write to `self` on the unchanged tree (the literal
-    exclusion list of the `_partial` obligation; in one-to-one correspondence with the
-    `documented-copying|…|mutates-self` entries of `known_findings.d/C18.json`) -/
+/-- copying methods that nevertheless write to `self` (the literal exclusion list of the table
+    obligation; in one-to-one correspondence with the `known` `documented-copying|…|mutates-self` entries
+    of `known_findings.d/C18.json`).  Empty since fix C18-02 (`Unit.simplify` builds a new unit). -/
 def knownMutatingCopies : List String := ["Unit.simplify"]
 
 namespace Order
 
+/-- the unit is assigned FIRST, before the 1-byte refusal (finding; fix prepared: C18-01, C18-03) -/
 def convertToUnits : List String :=
   ["F:_sanitize_units_convert", "F:_check_em_conversion", "F:_em_conversion", "F:get_conversion_factor",
    "W:self.units", "F:raise:ValueError", "F:astype", "W:values.dtype", "W:self.dtype",
@@ -98,6 +99,11 @@ end Order
 
 /-- the post-multiplication works on the raw buffer: it does not re-enter `__array_ufunc__` -/
 def fixupReenters : Bool := false
+/-- fixes C18-01 / C18-03 / C18-02 are NOT in the source -/
+def ctuUnitsLast : Bool := false
+def ctuReadonlyGuard : Bool := false
+def outReadonlyGuard : Bool := false
+def simplifyCopies : Bool := false
 
 /-- every `out=` of an equivalence's `_convert` goes through `_get_out`, … -/
 def equivalenceOutExpr : String := "self._get_out(x)"
